@@ -4,7 +4,7 @@ FUNCTIONS = ["canonicalize_name", "normalize_slashes", "is_filename_sane"]
 TRUSTED = ["CBMC library model of strcmp (used by is_filename_sane)",
            "malloc never returns overlapping objects (CBMC memory model)"]
 ASSUMPTIONS = [
-    "strings shorter than 4096 bytes for the unbounded-loop proofs; the buffer size is symbolic below that cap",
+    "strings shorter than 4096 bytes (thorough tier; 256 bytes in the quick tier) for the unbounded-loop proofs; the buffer size is symbolic below that cap",
     "the equivalence with the independent spec (fails iff '..', output equals spec, clean, idempotent, sane iff) is a bounded stand-in: all byte strings up to the stated length, not counted as proved",
     "function contract of canonicalize_name is enforced by the harness (assume/assert), not by --dfcc: dfcc plus nested pointer loop contracts does not terminate in symex (tool limit)",
     "call sites that funnel names through these functions are covered by C06/C07 obligations, not here",
@@ -22,7 +22,8 @@ HARNESSES = [
     dict(name="canon_safety", file="canon_safety.c",
          loops=["normalize_slashes", "canonicalize_name"],
          label="proved", timeout=1500, weight=10,
-         cases=[dict(id="max4096", defines={"CANON_MAX": 4096}, tier="quick")]),
+         cases=[dict(id="max256", defines={"CANON_MAX": 256}, tier="quick"),
+                dict(id="max4096", defines={"CANON_MAX": 4096}, tier="thorough")]),
     dict(name="sane_safety", file="sane.c", loops=["is_filename_sane"],
          label="proved", timeout=900, unwindset=["strcmp.0:4"],
          cases=[dict(id="max4096", defines={"SANE_MAX": 4096}, tier="quick")]),
